@@ -159,6 +159,17 @@ Fixpoint nth_default {St A} (next : St -> option A * St) (fuel : nat) (k : N) (s
            end
        end.
 
+(* Iterator::fold when not overridden: call next until it returns None *)
+Fixpoint fdrain {St A} (next : St -> option A * St) (fuel : nat) (s : St) : option (list A) :=
+  match fuel with
+  | O => None
+  | S f =>
+      match next s with
+      | (None, _) => Some []
+      | (Some x, s') => match fdrain next f s' with Some l => Some (x :: l) | None => None end
+      end
+  end.
+
 (* items transformed by a function (Lanes over LaneRanges over Offsets, ...) *)
 Definition omap {A B} (f : A -> B) (x : option A) : option B :=
   match x with Some a => Some (f a) | None => None end.
